@@ -68,6 +68,13 @@ func deathpoints(a *hk.Args) error {
 				break
 			}
 		}
+		for at := 1; at <= 9; at++ {
+			ev, err := oneHbDeathPoint(backend, at, a.Dir)
+			if err != nil {
+				return err
+			}
+			w.Write(ev)
+		}
 	}
 	return nil
 }
@@ -130,6 +137,41 @@ func oneDeathPoint(backend string, k int, scratch string) (dpEvent, bool, error)
 	ev.ReleaseKind = apiSync(w, "C", "ReleaseIfStale")
 	ev.AcquireKind = apiSync(w, "D", "TryLock")
 	return ev, more, nil
+}
+
+// oneHbDeathPoint: the holder acquires and its heartbeat writer runs freely until its at-th backend call - file-level calls
+// (write, close) included - at which the holder dies: between the truncating open of the heartbeat file and the write of the
+// beat, between the write and the close, ...
+func oneHbDeathPoint(backend string, at int, scratch string) (dpEvent, error) {
+	ev := dpEvent{Op: "DeathPoint", Backend: backend, K: 100 + at}
+	w, err := c01.NewWorld(backend, []string{"A", "B", "C", "D"}, map[string]bool{"C": true}, scratch, 100+at)
+	if err != nil {
+		return ev, err
+	}
+	defer w.Close()
+	w.Gate.SetFault("A.hb", fsgate.Fault{At: at, Action: fsgate.Crash})
+	if r := apiSync(w, "A", "TryLock"); r != "" {
+		return ev, fmt.Errorf("heartbeat death point %d: the holder could not acquire a free lock: %s", at, r)
+	}
+	for t := time.Now(); !w.Gate.IsDead("A.hb") && time.Since(t) < 3*time.Second; time.Sleep(time.Millisecond) {
+	}
+	if !w.Gate.IsDead("A.hb") {
+		return ev, fmt.Errorf("heartbeat death point %d: the heartbeat writer never made its call number %d", at, at)
+	}
+	ev.LastOp = fmt.Sprintf("heartbeat writer stopped at its backend call %d", at)
+	w.Gate.Kill("A")
+	w.Die("A")
+	ev.DirExists = w.LockDirExists()
+	ev.StaleBefore = w.IsStaleSync("B")
+	ev.LockedBefore = apiSync(w, "B", "TryLock")
+	if ev.LockedBefore == "" {
+		apiSync(w, "B", "Unlock")
+	}
+	w.Tick()
+	ev.StaleAfter = w.IsStaleSync("B")
+	ev.ReleaseKind = apiSync(w, "C", "ReleaseIfStale")
+	ev.AcquireKind = apiSync(w, "D", "TryLock")
+	return ev, nil
 }
 
 func boolInt(b bool) int {
@@ -624,7 +666,11 @@ func takeoverHold(a *hk.Args) error {
 		time.Sleep(2 * period)
 		acancel() // A dies: its heartbeat stops, the lock directory stays
 		time.Sleep(2*period + 80*time.Millisecond)
-		b := mk(true)
+		// B goes through a recording wrapper: in every other round one write of its heartbeat fails once it holds the lock (a
+		// transient I/O error) - it lives on, and so must its sign of life
+		gate := fsgate.NewGate(nil, ".heartBeat")
+		bfs := filesystem.NewVirtualFileSystem(fsgate.New(filesystem.NewExtendedOsFs(), "b", gate), filesystem.StandardFS, filesystem.IdentityPathConverterFunc).(*filesystem.VFS)
+		b := filesystem.NewGenericRemoteLockFile(bfs, "rt", lockRoot, true)
 		bctx, bcancel := context.WithTimeout(context.Background(), 3*time.Second)
 		switch ev.How {
 		case "TryLock":
@@ -635,6 +681,10 @@ func takeoverHold(a *hk.Args) error {
 			err = b.LockWithTimeout(context.Background(), 3*time.Second)
 		}
 		ev.Acquired = hk.Kind(err)
+		if err == nil && id%2 == 0 {
+			gate.FailNext(fsgate.FailWhen{Key: "b.hb", Op: "OpenFile", Suffix: "rt.lock", NotBefore: gate.Count("b.hb") + 3})
+			ev.How += " + one failed heartbeat write"
+		}
 		if err == nil {
 			// control heartbeat over the window in which B holds
 			stop := make(chan struct{})
@@ -671,6 +721,7 @@ func takeoverHold(a *hk.Args) error {
 			_ = b.Unlock(context.Background())
 		}
 		bcancel()
+		gate.Shutdown()
 		w.Write(ev)
 		_ = os.RemoveAll(dir)
 	}
